@@ -6,7 +6,7 @@
 //     (the hypothesis of the Lean theorem sample_count_distinct_positions): first k are (i,i), then
 //     strictly increasing next >= k, replace < k;
 //   - the integer part of the sampler is compared with the Lean model (the floating point part —
-//     skip = floor(log(u)/log(1-w)) — is recomputed here from the logged draws and handed to the model);
+//     skip = floor(log(u)/log1p(-w)) — is recomputed here from the logged draws and handed to the model);
 //   - the reservoir that rSample / rSampleSlice / rSampleIterator / rSampleStream build from those
 //     decisions is compared with the Lean model (final shuffle disabled in the source);
 //   - the public API is monitored: min(k, n) items from distinct positions; Shuffle permutes.
@@ -167,20 +167,22 @@ func floatScript(k int, src *logRand, postFill int) string {
 	fl, in := src.Floats, src.Ints
 	w := math.Exp(math.Log(fl[0]) / float64(k))
 	fi, ii := 1, 0
+	idx := k - 1 // s.i after the fill phase and the adjustment of the first call after it
 	var parts []string
 	for j := 0; j < postFill; j++ {
 		if fi >= len(fl) {
 			break
 		}
-		skip := math.Floor(math.Log(fl[fi]) / math.Log(1-w))
+		skip := math.Floor(math.Log(fl[fi]) / math.Log1p(-w))
 		fi++
-		if math.IsInf(skip, 0) || math.IsNaN(skip) {
+		if math.IsInf(skip, 0) || math.IsNaN(skip) || skip >= float64(math.MaxInt-idx) {
 			parts = append(parts, "inf:0")
 			continue
 		}
 		if fi >= len(fl) || ii >= len(in) {
 			break
 		}
+		idx += int(skip) + 1
 		w *= math.Exp(math.Log(fl[fi]) / float64(k))
 		fi++
 		parts = append(parts, fmt.Sprintf("%d:%d", int(skip), in[ii]))
@@ -1027,9 +1029,8 @@ func main() {
 	// n beyond 2^31: every sixteenth of [0, n) is reached (rangeCoverage)
 	for i, c := range []struct{ n, k, T int }{
 		{1 << 40, 1, 2000}, {1 << 40, 4, 500}, {1 << 33, 1, 2000}, {1<<32 + 12345, 3, 700}, {1 << 36, 16, 130}, {1 << 48, 2, 1000},
-		// n >= 2^58: found on the unchanged tree (known_findings.jsonl, open): once w < 2^-53 the float64
-		// expression 1 - w is 1, log(1 - w) is 0, the skip is infinite and the sampler stops - no position
-		// beyond about k * 2^57 is ever returned
+		// n >= 2^58: with log(1 - w) instead of log1p(-w) the skip became infinite once w < 2^-53 and no position
+		// beyond about k * 2^57 was ever returned (D22, repaired: known_findings.jsonl, fixed)
 		{1 << 62, 1, 2000}, {math.MaxInt, 2, 1000},
 	} {
 		rangeCoverage(res, "RSample", c.n, c.k, c.T, int64(env.Seed)*100+70+int64(i))
